@@ -112,6 +112,9 @@ impl Family for C01Family {
             udp_loss: if faulty_udp { 100 } else { 0 },
             udp_dup: if faulty_udp { 100 } else { 0 },
             udp_reorder: if faulty_udp { 150 } else { 0 },
+            // half of the runs use penguin's window of 512 frames, the others a small one, so that
+            // credit runs out within ordinary transfers
+            window: if r.chance(1, 2) { None } else { Some(*r.pick(&[[1u32, 1], [2, 1], [2, 2], [4, 2], [8, 8], [16, 4], [64, 32]])) },
         };
         let sizes = |r: &mut Prng, big: bool| -> Vec<usize> {
             if big {
